@@ -230,62 +230,85 @@ def wrapper_parts(k):
     return ("object vi", [], None, None, "None", [])
 
 
-def gen_callers(k, cl, flv, cp=False):
-    """def wrappers: py_ (GIL held), ng_ ('with nogil' block), pycc_/pyccn_ (through a C caller)"""
+def gen_cc(k, cl, flv, cp=False):
+    """C callers of one function: cdef void cc_<f>(mode, val, T* out) except * [nogil] (object: returns object)"""
     f = fname(k, cl, flv, cp)
-    parg, pre, carg, rdecl, out, zero = wrapper_parts(k)
-    call = "%s(mode%s)" % (f, "" if carg is None else ", " + carg)
-    asg = call if rdecl is None else "r = " + call
-    L = []
     ind = "    "
-
-    def defw(prefix, call_lines):
-        W = ["def %s_%s(int mode, %s, bint stale):" % (prefix, f, parg)]
-        W += [ind + "global g_reached"]
-        W += [ind + x for x in pre]
-        if rdecl:
-            W += [ind + rdecl]
-        W += [ind + x for x in zero]
-        W += [ind + "g_reached = 0", ind + "if stale: c32_set_stale()"]
-        W += [ind + x for x in call_lines]
-        W += [ind + "pend = c32_take_pending()", ind + "return ('ok', %s, pend)" % out, ""]
-        return W
-
-    L += defw("py", [asg])
-    if flv in ("nogil", "withgil"):
-        L += defw("ng", ["with nogil:", "    " + asg])
-    # C caller chain: cdef void cc(mode, val, T* out) except *  (object: returns object)
+    L = []
     if k.cls == "obj":
-        L += ["cdef object cc_%s(int mode, object val):" % f, ind + "global g_reached",
-              ind + "r = %s(mode, val)" % f, ind + "g_reached = 1", ind + "return r", ""]
-        L += defw("pycc", ["r = cc_%s(mode, %s)" % (f, carg)])
-    else:
-        for nm, tl in (("cc", ""), ("ccn", " nogil")):
-            if nm == "ccn" and flv == "plain":
-                continue
-            if k.cls == "void":
-                L += ["cdef void %s_%s(int mode) except *%s:" % (nm, f, tl), ind + "global g_reached",
-                      ind + "%s(mode)" % f, ind + "g_reached = 1", ""]
-                inner = "%s_%s(mode)" % (nm, f)
-            else:
-                L += ["cdef void %s_%s(int mode, %s val, %s* out) except *%s:" % (nm, f, k.ctype, k.ctype, tl),
-                      ind + "global g_reached", ind + "out[0] = %s(mode, val)" % f, ind + "g_reached = 1", ""]
-                inner = "%s_%s(mode, %s, &r)" % (nm, f, carg)
-            if nm == "cc":
-                L += defw("pycc", [inner])
-            else:
-                L += defw("pyccn", ["with nogil:", "    " + inner])
+        return ["cdef object cc_%s(int mode, object val):" % f, ind + "global g_reached",
+                ind + "r = %s(mode, val)" % f, ind + "g_reached = 1", ind + "return r", ""]
+    for nm, tl in (("cc", ""), ("ccn", " nogil")):
+        if nm == "ccn" and flv == "plain":
+            continue
+        if k.cls == "void":
+            L += ["cdef void %s_%s(int mode) except *%s:" % (nm, f, tl), ind + "global g_reached",
+                  ind + "%s(mode)" % f, ind + "g_reached = 1", ""]
+        else:
+            L += ["cdef void %s_%s(int mode, %s val, %s* out) except *%s:" % (nm, f, k.ctype, k.ctype, tl),
+                  ind + "global g_reached", ind + "out[0] = %s(mode, val)" % f, ind + "g_reached = 1", ""]
     return L
 
 
+def callers_of(k, flv):
+    c = ["py", "pycc"]
+    if flv != "plain":
+        c += ["ng"] + (["pyccn"] if k.cls != "obj" else [])
+    return c
+
+
+def gen_dispatchers(funcs):
+    """one def per (kind, caller): 'if fid == i: r = f_i(mode, val)' -- every branch is a direct call of f_i with
+    its own emitted check.  py_ (GIL held), ng_ ('with nogil' block), pycc_/pyccn_ (through the C caller).
+    -> lines, {(function name, caller): (def name, fid)}"""
+    ind = "    "
+    L, index = [], {}
+    bykind = {}
+    for k, cl, flv, cp in funcs:
+        bykind.setdefault(k.name, []).append((k, cl, flv, cp))
+    for kn, fl in bykind.items():
+        k = KBY[kn]
+        parg, pre, carg, rdecl, out, zero = wrapper_parts(k)
+        for caller in ("py", "ng", "pycc", "pyccn"):
+            members = [(k_, cl, flv, cp) for (k_, cl, flv, cp) in fl if caller in callers_of(k_, flv)]
+            if not members:
+                continue
+            dn = "%s_%s" % (caller, kn)
+            W = ["def %s(int fid, int mode, %s, bint stale):" % (dn, parg), ind + "global g_reached"]
+            W += [ind + x for x in pre] + ([ind + rdecl] if rdecl else []) + [ind + x for x in zero]
+            W += [ind + "g_reached = 0", ind + "if stale: c32_set_stale()"]
+            nog = caller in ("ng", "pyccn")
+            base = ind
+            if nog:
+                W += [ind + "with nogil:"]
+                base = ind + ind
+            for i, (k_, cl, flv, cp) in enumerate(members):
+                f = fname(k_, cl, flv, cp)
+                index[(f, caller)] = (dn, i)
+                if caller in ("py", "ng"):
+                    call = "%s(mode%s)" % (f, "" if carg is None else ", " + carg)
+                    stmt = call if rdecl is None else "r = " + call
+                elif k.cls == "obj":
+                    stmt = "r = cc_%s(mode, %s)" % (f, carg)
+                elif k.cls == "void":
+                    stmt = "%s_%s(mode)" % ("cc" if caller == "pycc" else "ccn", f)
+                else:
+                    stmt = "%s_%s(mode, %s, &r)" % ("cc" if caller == "pycc" else "ccn", f, carg)
+                W += [base + "%s fid == %d:" % ("if" if i == 0 else "elif", i), base + ind + stmt]
+            W += [ind + "pend = c32_take_pending()", ind + "return ('ok', %s, pend)" % out, ""]
+            L += W
+    return L, index
+
+
 def gen_module(funcs, legacy=False):
-    """funcs: list of (kind, clause, flavour, cpdef)"""
+    """funcs: list of (kind, clause, flavour, cpdef) -> source, dispatcher index"""
     L = ["# cython: language_level=3" + (", legacy_implicit_noexcept=True" if legacy else ""), PRELUDE]
     for k, cl, flv, cp in funcs:
         L += gen_callee(k, cl, flv, cp)
     for k, cl, flv, cp in funcs:
-        L += gen_callers(k, cl, flv, cp)
-    return "\n".join(L) + "\n"
+        L += gen_cc(k, cl, flv, cp)
+    D, index = gen_dispatchers(funcs)
+    return "\n".join(L + D) + "\n", index
 
 
 # function-pointer module: every (function spec, pointer spec) pair of a kind; incompatible pairs are
@@ -312,27 +335,33 @@ def gen_fp_typedefs(k):
 
 
 def gen_fp_module(pairs):
-    """pairs: (kind, fclause, pclause) compatible"""
+    """pairs: (kind, fclause, pclause) compatible -> source, {(kind, fclause, pclause): (def name, fid)}"""
     L = ["# cython: language_level=3", PRELUDE]
     seen = set()
     for k, fc, pc in pairs:
         if (k.name, fc[0]) not in seen:
             seen.add((k.name, fc[0]))
             L += gen_callee(k, fc, "plain")
-    for k in sorted({p[0].name for p in pairs}):
-        L += gen_fp_typedefs(KBY[k])
+    for kn in sorted({p[0].name for p in pairs}):
+        L += gen_fp_typedefs(KBY[kn])
     ind = "    "
-    for k, fc, pc in pairs:
-        f = fname(k, fc, "plain")
+    index = {}
+    for kn in sorted({p[0].name for p in pairs}):
+        k = KBY[kn]
+        members = [p for p in pairs if p[0].name == kn]
         parg, pre, carg, rdecl, out, zero = wrapper_parts(k)
-        call = "p(mode%s)" % ("" if carg is None else ", " + carg)
-        W = ["def fp_%s_%s(int mode, %s, bint stale):" % (pc[0], f, parg)]
-        W += [ind + x for x in pre] + ([ind + rdecl] if rdecl else [])
-        W += [ind + "cdef %s p = %s" % (fp_type_name(k, pc), f)]
-        W += [ind + "if stale: c32_set_stale()", ind + (call if rdecl is None else "r = " + call),
-              ind + "pend = c32_take_pending()", ind + "return ('ok', %s, pend)" % out, ""]
+        W = ["def fp_%s(int fid, int mode, %s, bint stale):" % (kn, parg)]
+        W += [ind + x for x in pre] + ([ind + rdecl] if rdecl else []) + [ind + x for x in zero]
+        for i, (k_, fc, pc) in enumerate(members):
+            W += [ind + "cdef %s p%d = %s" % (fp_type_name(k, pc), i, fname(k, fc, "plain"))]
+        W += [ind + "if stale: c32_set_stale()"]
+        for i, (k_, fc, pc) in enumerate(members):
+            index[(kn, fc[0], pc[0])] = ("fp_%s" % kn, i)
+            call = "p%d(mode%s)" % (i, "" if carg is None else ", " + carg)
+            W += [ind + "%s fid == %d:" % ("if" if i == 0 else "elif", i), ind + ind + (call if rdecl is None else "r = " + call)]
+        W += [ind + "pend = c32_take_pending()", ind + "return ('ok', %s, pend)" % out, ""]
         L += W
-    return "\n".join(L) + "\n"
+    return "\n".join(L) + "\n", index
 
 
 CPP_CLASSES = ["bad_alloc", "bad_cast", "bad_typeid", "domain_error", "invalid_argument", "ios_failure",
@@ -446,7 +475,7 @@ def _dec(k, v):
     if k == "d":
         return float(v)
     return v
-def one(modname, fn, mode, vk, v, stale, direct=False, extra=None):
+def one(modname, fn, fid, mode, vk, v, stale, direct=False, extra=None):
     mod = sys.modules.get(modname)
     if mod is None:
         mod = __import__(modname)
@@ -469,7 +498,7 @@ def one(modname, fn, mode, vk, v, stale, direct=False, extra=None):
                     r = (r["a"], r["b"])
                 r = ("ok", r, None)
             else:
-                r = getattr(mod, fn)(mode, _dec(vk, v), stale)
+                r = getattr(mod, fn)(fid, mode, _dec(vk, v), stale)
             out = ["ok", _enc(r)]
         except BaseException as e:
             out = ["exc", type(e).__name__, str(e)[:80]]
@@ -477,8 +506,8 @@ def one(modname, fn, mode, vk, v, stale, direct=False, extra=None):
         sys.stderr = olderr
         sys.unraisablehook = old
     return [out, list(LOG), mod.c32_reached()]
-def run(modname, fn, mode, vk, v, stale, direct=False, extra=None):
-    return json.dumps(one(modname, fn, mode, vk, v, stale, direct, extra))
+def run(modname, fn, fid, mode, vk, v, stale, direct=False, extra=None):
+    return json.dumps(one(modname, fn, fid, mode, vk, v, stale, direct, extra))
 def batch(cases):
     return json.dumps([one(*c) for c in cases])
 '''
@@ -954,13 +983,16 @@ def run(ctx):
                  for cl in clauses_for(KBY[kn]) if cl[0] in ("none", "noexc", "star", "exqm1", "exm1")
                  for flv in (("plain", "nogil") if kn in ("int", "void") else ("plain",))]
     O0 = ["-O0"]
-    specs = [dict(name="c32_m%d" % i, source=gen_module(m), workdir=wd, cflags=O0) for i, m in enumerate(mods)]
-    specs.append(dict(name="c32_leg", source=gen_module(leg_funcs, legacy=True), workdir=wd, cflags=O0))
+    srcs = [gen_module(m) for m in mods]
+    leg_src, leg_index = gen_module(leg_funcs, legacy=True)
+    specs = [dict(name="c32_m%d" % i, source=src, workdir=wd, cflags=O0) for i, (src, _) in enumerate(srcs)]
+    specs.append(dict(name="c32_leg", source=leg_src, workdir=wd, cflags=O0))
     # function pointers: compatibility from the compiler (errors of a probe module), then the compatible pairs
     fp_all = [(KBY[kn], fc, pc) for kn in FP_KINDS for fc in fp_clauses(KBY[kn]) for pc in fp_clauses(KBY[kn])]
     compat = probe_fp_compat(ctx, fp_all)
     fp_ok = [p for p in fp_all if compat[(p[0].name, p[1][0], p[2][0])]]
-    specs.append(dict(name="c32_fp", source=gen_fp_module(fp_ok), workdir=wd, cflags=O0))
+    fp_src, fp_index = gen_fp_module(fp_ok)
+    specs.append(dict(name="c32_fp", source=fp_src, workdir=wd, cflags=O0))
     specs.append(dict(name="c32_cpp", source=CPP_SRC, workdir=wd, cplus=True, cflags=O0))
     tick("fp probe done")
     built = cybuild.build_many(specs, jobs=min(len(specs), 12))
@@ -984,7 +1016,7 @@ def run(ctx):
             ctx.corr_break("excspec:exc_compatible", {"kind": k.name, "func": fc[1], "ptr": pc[1]}, got, m)
 
     cases = []   # dict(mod, fn, k, cl, flv, caller, mode, val, stale, legacy, fspec, pspec, cn)
-    def add_cases(modname, k, cl, flv, cp, legacy, callers):
+    def add_cases(modname, index, k, cl, flv, cp, legacy, callers):
         flags = "1000" if legacy else "0000"
         fs = spec_of[(flags, k.name, cl[0])]
         f = fname(k, cl, flv, cp)
@@ -995,19 +1027,17 @@ def run(ctx):
         v0 = vals[0]
         plan += [(1, v0, 0), (2, v0, 0), (2, vals[-1], 0), (3, v0, 0), (3, v0, 1), (4, v0, 0), (4, v0, 1)]
         for caller in callers:
+            dn, fid = (f, 0) if caller == "direct" else index[(f, caller)]
             for mode, v, stale in plan:
-                cases.append(dict(mod=modname, fn="%s_%s" % (caller, f), k=k, cl=cl, flv=flv, caller=caller, mode=mode,
+                cases.append(dict(mod=modname, fn=dn, fid=fid, callee=f, k=k, cl=cl, flv=flv, caller=caller, mode=mode,
                                   val=v, stale=stale, legacy=legacy, fspec=fs, pspec=fs, cp=cp))
     for i, m in enumerate(mods):
         for k, cl, flv, cp in m:
-            callers = ["py", "pycc"] + (["ng", "pyccn"] if flv != "plain" else [])
-            if k.cls == "obj":
-                callers = ["py", "pycc"] + (["ng"] if flv != "plain" else [])
-            add_cases("c32_m%d" % i, k, cl, flv, cp, False, callers)
+            add_cases("c32_m%d" % i, srcs[i][1], k, cl, flv, cp, False, callers_of(k, flv))
             if cp:
-                add_cases("c32_m%d" % i, k, cl, flv, cp, False, ["direct"])
+                add_cases("c32_m%d" % i, srcs[i][1], k, cl, flv, cp, False, ["direct"])
     for k, cl, flv, cp in leg_funcs:
-        add_cases("c32_leg", k, cl, flv, cp, True, ["py"] + (["ng"] if flv != "plain" else []))
+        add_cases("c32_leg", leg_index, k, cl, flv, cp, True, ["py"] + (["ng"] if flv != "plain" else []))
     # function pointer cases
     for k, fc, pc in fp_ok:
         fs = spec_of[("0000", k.name, fc[0])]
@@ -1015,7 +1045,9 @@ def run(ctx):
         vals = k.values(False)
         plan = [(0, v, s) for v in vals for s in (0, 1)] + [(1, vals[0], 0), (3, vals[0], 0), (4, vals[0], 1)]
         for mode, v, stale in plan:
-            cases.append(dict(mod="c32_fp", fn="fp_%s_%s" % (pc[0], fname(k, fc, "plain")), k=k, cl=fc, pcl=pc, flv="plain",
+            dn, fid = fp_index[(k.name, fc[0], pc[0])]
+            cases.append(dict(mod="c32_fp", fn=dn, fid=fid, callee="%s via %s" % (fname(k, fc, "plain"), pc[1] or "(no clause)"),
+                              k=k, cl=fc, pcl=pc, flv="plain",
                               caller="fp", mode=mode, val=v, stale=stale, legacy=False, fspec=fs, pspec=ps, cp=False))
     run_cases(ctx, model, cases)
     tick("cases done")
@@ -1108,8 +1140,7 @@ def run_cases(ctx, model, cases):
         k = c["k"]
         vk = {"dbl": "d", "struct": "s", "void": "v"}.get(k.cls, "x")
         direct = c["caller"] == "direct"
-        fn = c["fn"][len("direct_"):] if direct else c["fn"]
-        return [c["mod"], fn, c["mode"], vk, c["val"], c["stale"], direct]
+        return [c["mod"], c["fn"], c["fid"], c["mode"], vk, c["val"], c["stale"], direct]
     obs = [None] * len(cases)
     B = 400
     calls, owners = [], []
@@ -1152,11 +1183,11 @@ def run_cases(ctx, model, cases):
         if o is None:
             continue
         k, e = c["k"], exps[i]
-        inp = {"module": c["mod"], "func": c["fn"], "mode": c["mode"], "val": c["val"], "stale": c["stale"],
+        inp = {"module": c["mod"], "func": c["fn"], "fid": c["fid"], "callee": c["callee"], "mode": c["mode"], "val": c["val"], "stale": c["stale"],
                "spec": c["cl"][1] or "(default)", "flavour": c["flv"], "caller": c["caller"], "legacy": c["legacy"]}
         body = "raise" if c["mode"] in (1, 4) else "fall" if c["mode"] == 3 else "handled" if c["mode"] == 2 else "ret"
         stratum = "%s/%s/%s/%s%s" % (c["caller"], k.cls, c["cl"][0], body, "+stale" if c["stale"] else "")
-        ctx.case(stratum, inp, sig=(c["mod"], c["fn"], c["mode"], str(c["val"]), c["stale"]))
+        ctx.case(stratum, inp, sig=(c["mod"], c["fn"], c["fid"], c["mode"], str(c["val"]), c["stale"]))
         ok_model = agree(k, e, o) if c["caller"] != "direct" else agree_direct(k, e, o)
         if e["viol"] != 0:
             ctx.corr_break("excspec:gil", inp, "ran", "model predicts thread-state access without the GIL: " + mq[i])
@@ -1213,7 +1244,7 @@ def run_cpp(ctx, model):
             cases.append(("cpp_void", [which, ng, 0], "dv", which, ng, 0))
             mq.append("obs -/+d -/+d V plain %d %s -" % (ng, body))
     mres = model.batch(mq)
-    calls = [["c32_drv.run", ["c32_cpp", c[0], 0, "x", 0, 0, False, c[1]]] for c in cases]
+    calls = [["c32_drv.run", ["c32_cpp", c[0], 0, 0, "x", 0, 0, False, c[1]]] for c in cases]
     res = cybuild.call_cases(wd, calls, setup="import c32_drv", alarm=30)
     # documented mapping (user guide, wrapping C++: "Exceptions" table)
     DOC = {"bad_alloc": "MemoryError", "bad_cast": "TypeError", "bad_typeid": "TypeError", "domain_error": "ValueError",
